@@ -1,3 +1,4 @@
+from planlib import desc_fuzz
 FNS = ["reim_fft_simple", "reim_ifft_simple", "reim_fftvec_mul_simple", "reim_fftvec_addmul_simple", "reim_from_znx64_simple", "reim_to_znx64_simple",
        "cplx_fft_simple", "cplx_ifft_simple", "cplx_fftvec_mul_simple", "cplx_fftvec_addmul_simple", "cplx_from_znx32_simple", "cplx_from_tnx32_simple",
        "cplx_to_tnx32_simple", "reim4_fftvec_mul_simple", "reim4_fftvec_addmul_simple", "reim4_from_cplx_simple", "reim4_to_cplx_simple",
@@ -26,5 +27,6 @@ PLAN = dict(
          "from its original by a call of the same function with a different dimension or parameter. Distinct = distinct descriptor.",
     assumptions=["parameters stay inside each function's documented domain (log2bound<=50 for from_znx64, |x/d| small for conversions)"],
     quick=_jobs("quick"), thorough=_jobs("thorough"),
+    fuzz=desc_fuzz("C15", fix=dict(maxlog=(2, 9), len=(50, 120)), runs=20000),
     required_classes=dict(all=["fn:" + f for f in FNS] + ["repeat_after_other_params", "simple:m=1 and m=65536 in one history", "simple:m>=4096", "subnormal-range operands"]),
 )
